@@ -92,7 +92,10 @@ BODY_SPLITS = [
     [6], [5, 1], [3, 0, 3],
 ]
 TRUNCS = [(1, 0), (2, 0), (2, 1), (5, 0), (5, 1), (5, 4)]  # (announced K, carried j < K)
-CL_ENDINGS = ["fin_frame", "lone_fin", "trailers_fin", "trailers_lone_fin", "unknown_frame_fin"]
+CL_ENDINGS = ["fin_frame", "lone_fin", "trailers_fin", "trailers_lone_fin", "unknown_frame_fin",
+              # a trailer section with a content-length of its own (the number of body bytes really sent, or another
+              # number): the length declared by the *leading* header section stays the one that binds
+              "trailers_cl_body_fin", "trailers_cl_body_lone_fin", "trailers_cl_other_fin"]
 CHUNKS = ["one", "frame", "byte"]
 
 SEQ_TOKENS = [":method", ":scheme", ":authority", ":path", ":status", ":protocol", ":unknown", "regular", "regular-then-pseudo"]
@@ -446,6 +449,11 @@ def run_case(res, kind, block, enc="lsq", body=(), ending="fin_frame", chunk="on
     elif ending == "trailers_lone_fin":
         frames.append(frame(0x01, enc_lsq(TRAILERS_OK)))
         lone = True
+    elif ending in ("trailers_cl_body_fin", "trailers_cl_body_lone_fin", "trailers_cl_other_fin"):
+        n_body = sum(body) + (trunc[1] if trunc else 0)
+        n = n_body if "body" in ending else n_body + 7
+        frames.append(frame(0x01, enc_lsq([(b"content-length", str(n).encode())] + TRAILERS_OK)))
+        lone = ending.endswith("lone_fin")
     elif ending == "unknown_frame_fin":
         frames.append(frame(0x21, b"gg"))
     elif ending == "open":
